@@ -9,4 +9,4 @@ def run(ctx):
     # revocation against handshakes at every stage (TLS done but no upgrade yet, resumed TLS sessions), updates to the empty list
     # and with repeated keys, the key store's Replace: C03's harness over real sockets
     import props.C03 as c03
-    c03.run(ctx)
+    c03.run(ctx, with_registry=False)
